@@ -16,6 +16,7 @@ import (
 
 	"github.com/KevoDB/kevo/pkg/common/log"
 	"github.com/KevoDB/kevo/pkg/config"
+	"github.com/KevoDB/kevo/pkg/verifhook"
 )
 
 const (
@@ -283,6 +284,8 @@ func (w *WAL) Append(entryType uint8, key, value []byte) (uint64, error) {
 		}
 	}
 
+	verifhook.Point("wal.append.buffered")
+
 	// Create an entry object for notification
 	entry := &Entry{
 		SequenceNumber: seqNum,
@@ -298,6 +301,7 @@ func (w *WAL) Append(entryType uint8, key, value []byte) (uint64, error) {
 	if err := w.maybeSync(); err != nil {
 		return 0, err
 	}
+	verifhook.Point("wal.append.done")
 
 	return seqNum, nil
 }
@@ -624,6 +628,7 @@ func (w *WAL) syncLocked() error {
 	if err := w.writer.Flush(); err != nil {
 		return fmt.Errorf("failed to flush WAL buffer: %w", err)
 	}
+	verifhook.Point("wal.sync.flushed")
 
 	if err := w.file.Sync(); err != nil {
 		return fmt.Errorf("failed to sync WAL file: %w", err)
@@ -842,6 +847,8 @@ func (w *WAL) Close() error {
 	if err := w.file.Sync(); err != nil {
 		return fmt.Errorf("failed to sync WAL file during close: %w", err)
 	}
+
+	verifhook.Point("wal.close.synced")
 
 	// Now mark as rotating to block new operations
 	atomic.StoreInt32(&w.status, WALStatusRotating)
